@@ -6,7 +6,8 @@ CONFIG = {
     "trusted": [
         "modelled (Http.v): drivers.HTTPHeaders Set/SetArr/Get, parseHeader, driver options, SetDefaultParams, makeRequest's header loop, cookie and user-agent defaults, responseCodeAllowed with literal/?/* URL globs, response exposure; both as specification (wire_spec, accepted, ...) and as mirror of the pinned code (wire_pinned, returns_early_pinned)",
         "oracles (not modelled, compared on every run): net/http client and server (canonicalisation on the wire, cookie syntax, redirects), pester (one attempt: WithMaxRetries(1)), gobwas/glob on the generator's patterns, goquery parsing of the tiny answer page",
-        "loopback httptest server in the worker process records the request as received; observations are projected to a fixed list of header names, sorted cookie name/value pairs, user agent, request count, T/F per status, and a latency bucket for cancellation",
+        "loopback httptest server in the worker process records the request as received; observations are projected to a fixed list of header names, sorted cookie name/value pairs, user agent, request count, T/F per status, and a latency bucket for cancellation; a response cookie is compared as name and 'value|max-age|secure|httponly|path' (the value may be empty)",
+        "histories: 2-4 documents through one driver instance, each request compared with history_spec (defaults merged with that request's own parameters)",
         "in-flight abort on cancellation is runtime behaviour: only the correspondence check covers it (returned at least 700 ms before the 2500 ms response?)",
     ],
     "assumptions": [
@@ -50,7 +51,8 @@ def describe(meta, fname, t):
                 "mkind": 5, "tags": ["status"], "theorem": "C19.status_accept_iff (correspondence)"}
     if kind in (6, 7, 8):
         c = ix["P"][i]
-        part = {6: "status code", 7: "header %s" % (ix["resp_names"][j] if j < len(ix["resp_names"]) else j), 8: "cookies"}[kind]
+        part = {6: "status code", 7: "header %s" % (ix["resp_names"][j] if j < len(ix["resp_names"]) else j),
+                8: "cookies (every Set-Cookie of the response, empty-valued ones included, with value|max-age|secure|httponly|path)"}[kind]
         return {"key": "%d|%d|%s" % (kind, j, c["script"]), "what": "response %s reported to the query differs from what the server sent: script=%s query saw=%s %s" % (
             part, c["script"], c["impl"], c.get("error", "")), "mkind": kind, "tags": ["response"], "theorem": "C19.response_reported (correspondence)"}
     if kind == 9:
@@ -59,4 +61,32 @@ def describe(meta, fname, t):
                 "what": "%s after %d ms on a response due after %d ms: Run returned after %d ms (error=%r)" % (
                     c["kind"], c["cancel_after_ms"], c["response_after_ms"], c["run_returned_after_ms"], c["error"]),
                 "mkind": 9, "tags": ["cancel", c["kind"]], "theorem": "C19 cancellation aborts an in-flight request (correspondence only)"}
+    if kind in (11, 12, 13, 14):
+        c = ix["H"][i]
+        k, nj = j // 100, j % 100
+        reqs = c["requests"]
+        if k >= len(reqs):
+            return {"key": "malformed|%s" % (t,), "what": "malformed history row %s" % (t,), "mkind": kind}
+
+        def own(r):
+            return "headers=%s cookies=%s UA=%r" % ([(h["Name"], h["Vals"], "array" if h["Arr"] else "string") for h in (r["query_headers"] or [])],
+                                                   r["query_cookies"] or [], r["query_ua"])
+        drv = "driver headers=%s driver cookies=%s driver UA=%r" % (
+            [(d["Name"], d["Vals"], "Set+WithHeaders" if d["Set"] else "WithHeader") for d in (c["driver_headers"] or [])],
+            c["driver_cookies"] or [], c["driver_ua"])
+        earlier = " ; ".join("document %d: %s" % (x + 1, own(reqs[x])) for x in range(k)) or "none"
+        recv = (reqs[k].get("raw") or {}).get("received", {})
+        if kind == 11:
+            name = ix["names"][nj]
+            part = "header %s as received %r" % (name, recv.get(name, []))
+        elif kind == 12:
+            part = "cookies as received %r" % (recv.get("Cookie"),)
+        elif kind == 13:
+            part = "user agent as received %r" % (recv.get("User-Agent"),)
+        else:
+            part = "%d requests reached the server" % reqs[k]["requests"]
+        what = ("history through one driver instance: document %d of %d (%s): %s differs from the driver's defaults merged with this document's own parameters; %s ; earlier documents through the same driver: %s"
+                % (k + 1, len(reqs), own(reqs[k]), part, drv, earlier))
+        return {"key": "%d|%d|%s|%s|%s" % (kind, j, drv, earlier, own(reqs[k])), "what": what, "mkind": kind, "tags": ["history"],
+                "theorem": "C19.history_independent / request_carries_exactly (correspondence)"}
     return {"key": "malformed|%s" % (t,), "what": "malformed case row %s" % (t,), "mkind": kind}
